@@ -277,16 +277,47 @@ var ruleEntry = &Rule{
 			}
 			// both adapters call the same core with (ctx, list|nil, Root(), value)
 			var cores []*ssa.Call
+			var collectors []ssa.Value
 			for _, ad := range []*ssa.Function{q, x} {
 				cs := p.execMethodCalls(ad)
 				if len(cs) != 1 {
 					out.viol("adapter "+ad.Name()+" calls the core once", p.pos(ad.Pos()), fnName(ad), fmt.Sprintf("%d calls", len(cs)))
 					continue
 				}
-				cores = append(cores, cs[0])
 				c := cs[0]
 				key := "adapter " + ad.Name() + " evaluates the path's root against the given value"
 				good := false
+				// the adapters may share a helper that prepares the Executor
+				// and calls the core (`exec.queryRoot(ctx, found, value)`): the
+				// helper's call of the core is judged with the helper's
+				// parameters standing for the adapter's arguments
+				if h := c.Call.StaticCallee(); h != nil && h.Blocks != nil && len(c.Call.Args) == len(h.Params) {
+					if hcs := p.execMethodCalls(h); len(hcs) == 1 && len(hcs[0].Call.Args) == 5 && returnsResultsOf(h, hcs[0]) {
+						c2 := hcs[0]
+						sub := func(v ssa.Value) ssa.Value {
+							if q, ok := v.(*ssa.Parameter); ok && q.Parent() == h {
+								return c.Call.Args[paramIndex(q)]
+							}
+							return nil
+						}
+						rootCall, _ := c2.Call.Args[3].(*ssa.Call)
+						if rootCall != nil && rootCall.Call.StaticCallee() != nil && rootCall.Call.StaticCallee().Name() == "Root" && fnPkgPath(rootCall.Call.StaticCallee()) == pkgAST {
+							if _, ok := loadOfField(rootCall.Call.Args[0], "path"); ok && sub(c2.Call.Args[4]) != nil && sub(c2.Call.Args[1]) != nil && sub(c2.Call.Args[2]) != nil &&
+								isParamNamed(sub(c2.Call.Args[4]), ad) && isParamNamed(sub(c2.Call.Args[1]), ad) {
+								cores = append(cores, c2)
+								collectors = append(collectors, sub(c2.Call.Args[2]))
+								out.ok(key, p.pos(c.Pos()), fnName(ad), "through "+h.Name()+": core("+c2.Call.StaticCallee().Name()+") receives ctx, the collector, path.Root() and the value")
+								continue
+							}
+						}
+					}
+				}
+				cores = append(cores, cs[0])
+				if len(c.Call.Args) >= 3 {
+					collectors = append(collectors, c.Call.Args[2])
+				} else {
+					collectors = append(collectors, nil)
+				}
 				if len(c.Call.Args) == 5 {
 					rootCall, _ := c.Call.Args[3].(*ssa.Call)
 					if rootCall != nil && rootCall.Call.StaticCallee() != nil && rootCall.Call.StaticCallee().Name() == "Root" && fnPkgPath(rootCall.Call.StaticCallee()) == pkgAST {
@@ -302,9 +333,9 @@ var ruleEntry = &Rule{
 				}
 			}
 			if len(cores) == 2 {
-				if cores[0].Call.StaticCallee() == cores[1].Call.StaticCallee() && len(cores[0].Call.Args) >= 3 && len(cores[1].Call.Args) >= 3 {
-					k0 := p.shapeOf(cores[0].Call.Args[2]).Kind
-					k1 := p.shapeOf(cores[1].Call.Args[2]).Kind
+				if cores[0].Call.StaticCallee() == cores[1].Call.StaticCallee() && len(collectors) == 2 && collectors[0] != nil && collectors[1] != nil {
+					k0 := p.shapeOf(collectors[0]).Kind
+					k1 := p.shapeOf(collectors[1]).Kind
 					if k0 != "nil" && k1 == "nil" {
 						out.ok("Exists runs the same core as Query with a nil collector", p.pos(cores[1].Pos()), fnName(x), "collector: "+k0+" vs nil")
 					} else {
@@ -317,7 +348,14 @@ var ruleEntry = &Rule{
 		}
 		if len(adapter) == 4 {
 			if cs := p.execMethodCalls(adapter["Query"].Call.StaticCallee()); len(cs) == 1 {
-				p.coreTable(out, cs[0].Call.StaticCallee())
+				core := cs[0].Call.StaticCallee()
+				// … behind the helper the adapters share
+				if hcs := p.execMethodCalls(core); core != nil && core.Blocks != nil && len(hcs) == 1 && len(hcs[0].Call.Args) == 5 && returnsResultsOf(core, hcs[0]) {
+					if rc, _ := hcs[0].Call.Args[3].(*ssa.Call); rc != nil && rc.Call.StaticCallee() != nil && rc.Call.StaticCallee().Name() == "Root" {
+						core = hcs[0].Call.StaticCallee()
+					}
+				}
+				p.coreTable(out, core)
 			}
 		}
 		// sibling agreement on configuration: no entry point writes a field of
@@ -346,6 +384,50 @@ var ruleEntry = &Rule{
 					d = append(d, n+" writes {"+sets[n]+"}")
 				}
 				out.viol(key, p.pos(fns[p.A.EntryOrder[0]].Pos()), "", "an entry point sets Executor state its siblings do not, so the shared evaluation can behave differently for it: "+strings.Join(d, "; "))
+			}
+		}
+		// … and the same for the adapters the entry points evaluate through
+		// (`execute` for Query, First and Match, `exists` for Exists): what
+		// one of them prepares in the Executor before it calls the core, the
+		// other prepares too
+		if len(adapter) == 4 {
+			sets := map[*ssa.Function]string{}
+			var ads []*ssa.Function
+			for _, n := range p.A.EntryOrder {
+				if adapter[n] == nil {
+					continue
+				}
+				ad := adapter[n].Call.StaticCallee()
+				if ad == nil || ad.Blocks == nil {
+					continue
+				}
+				if _, seen := sets[ad]; seen {
+					continue
+				}
+				m := map[string]bool{}
+				for _, st := range p.execStoresV(ad) {
+					m[st.Field.Name()] = true
+				}
+				sets[ad] = strings.Join(sortedKeys(m), ",")
+				ads = append(ads, ad)
+			}
+			if len(ads) >= 2 {
+				same := true
+				for _, ad := range ads {
+					if sets[ad] != sets[ads[0]] {
+						same = false
+					}
+				}
+				key := "evaluation adapters prepare the Executor identically"
+				if same {
+					out.ok(key, p.pos(ads[0].Pos()), fnName(ads[0]), "fields written by each adapter: {"+sets[ads[0]]+"}")
+				} else {
+					var d []string
+					for _, ad := range ads {
+						d = append(d, ad.Name()+" writes {"+sets[ad]+"}")
+					}
+					out.viol(key, p.pos(ads[0].Pos()), fnName(ads[0]), "one adapter prepares Executor state the other does not, so the shared evaluation starts from a different state for Exists than for Query: "+strings.Join(d, "; "))
+				}
 			}
 		}
 		// post-processing tables
@@ -661,6 +743,31 @@ func (p *Prog) recollectsWhenStrict(callee *ssa.Function, argIdx int) bool {
 		return false
 	}
 	q := callee.Params[argIdx]
+	// a helper that only hands the collector on to one call of a function
+	// that re-collects (`queryRoot(ctx, found, value)` in front of `query`)
+	if refs := q.Referrers(); refs != nil {
+		var fwd *ssa.Call
+		only := true
+		for _, r := range *refs {
+			switch x := r.(type) {
+			case *ssa.DebugRef:
+			case *ssa.Call:
+				if fwd != nil || x.Call.IsInvoke() {
+					only = false
+				}
+				fwd = x
+			default:
+				only = false
+			}
+		}
+		if only && fwd != nil && fwd.Call.StaticCallee() != callee {
+			for j, a := range fwd.Call.Args {
+				if a == ssa.Value(q) && p.recollectsWhenStrict(fwd.Call.StaticCallee(), j) {
+					return true
+				}
+			}
+		}
+	}
 	for _, b := range callee.Blocks {
 		fs := factsAt(b)
 		isNil, _ := nilFact(fs, q)
@@ -1350,4 +1457,23 @@ func (p *Prog) coreTable(out *RuleOut, core *ssa.Function) {
 	}
 	out.Counts["core_cells"] = n
 	out.Floors["core_cells"] = 6
+}
+
+// returnsResultsOf: every return of h hands back the results of call c, in order.
+func returnsResultsOf(h *ssa.Function, c *ssa.Call) bool {
+	rets := returnsOf(h)
+	for _, r := range rets {
+		for i, rv := range r.Results {
+			cc, idx := callOf(rv)
+			if cc == nil {
+				if sc2, isCall := stripConvPlain(rv).(*ssa.Call); isCall && len(r.Results) == 1 {
+					cc, idx = sc2, 0
+				}
+			}
+			if cc != c || idx != i {
+				return false
+			}
+		}
+	}
+	return len(rets) > 0
 }
